@@ -86,11 +86,11 @@ Proof. intros args r _ H r' P. change (spec_method mf mf2 "around") with spec_ar
   destruct a as [ | | |q| | | ]; cbn in H; try discriminate H; cbn in P; try (inversion H; inversion P; subst; done_eqv).
   destruct (qtie (q * pow10 (Z.of_nat n))) eqn:T; [discriminate H|]. inversion H; inversion P; subst.
   rewrite (round_half_even_nearest _ T). apply sv_eqv_refl. Qed.
-(* max_horizontal / min_horizontal skip null and NaN: maximum / minimum are the documented value only when no operand is missing *)
-Lemma pl_maximum : documented_pl "maximum" no_missing.
+(* null operands are propagated; max_horizontal / min_horizontal still skip a NaN next to a present operand *)
+Lemma pl_maximum : documented_pl "maximum" (pl_guard "maximum").
 Proof. intros args r G H r' P. change (spec_method mf mf2 "maximum") with spec_maximum in H. arity2 H args.
   destruct a, b; cbn in G; try discriminate G; fin_pl H P. Qed.
-Lemma pl_minimum : documented_pl "minimum" no_missing.
+Lemma pl_minimum : documented_pl "minimum" (pl_guard "minimum").
 Proof. intros args r G H r' P. change (spec_method mf mf2 "minimum") with spec_minimum in H. arity2 H args.
   destruct a, b; cbn in G; try discriminate G; fin_pl H P. Qed.
 Lemma pl_fmax : documented_pl "fmax" anyargs.
@@ -110,10 +110,8 @@ Lemma pl_is_null : documented_pl "is_null" anyargs.
 Proof. intros args r _ H r' P. change (spec_method mf mf2 "is_null") with spec_is_null in H. pl1case H P args. Qed.
 Lemma pl_is_nan : documented_pl "is_nan" anyargs.
 Proof. intros args r _ H r' P. change (spec_method mf mf2 "is_nan") with spec_is_nan in H. pl1case H P args. Qed.
-(* x.is_infinite() is null on a null: documented value (False) only for a present argument *)
-Lemma pl_is_inf : documented_pl "is_inf" not_null.
-Proof. intros args r G H r' P. change (spec_method mf mf2 "is_inf") with spec_is_inf in H. arity1 H args.
-  destruct a; cbn in G; try discriminate G; fin_pl H P. Qed.
+Lemma pl_is_inf : documented_pl "is_inf" anyargs.
+Proof. intros args r _ H r' P. change (spec_method mf mf2 "is_inf") with spec_is_inf in H. pl1case H P args. Qed.
 Lemma pl_is_bad : documented_pl "is_bad" anyargs.
 Proof. intros args r _ H r' P. change (spec_method mf mf2 "is_bad") with spec_is_bad in H. pl1case H P args. Qed.
 Lemma pl_is_in : documented_pl "is_in" anyargs.
